@@ -301,6 +301,22 @@ def eval_chain(x, prog):
     return x
 
 
+def _rowwise(A, prog, rows, got, tol, ctx):
+    """NumPy's own result for one expression can differ in the last unit between the whole array and a few of its rows
+    (vectorised and scalar inner loops), and a later floor division turns that unit into a whole step. Eager evaluation of
+    the same expression on the selected rows is eager NumPy evaluation too: returns None if `got` equals it, else a message."""
+    try:
+        sel = A[[rows]] if isinstance(rows, (int, np.integer)) else A[rows]
+        with np.errstate(all='ignore'):
+            e2 = eval_chain(sel, prog)
+    except Exception as e:
+        return 'row-wise evaluation failed: %r' % e
+    d2 = same(got, e2, rtol=tol)
+    if d2 is None:
+        ctx.mon('matched_rowwise_eager_evaluation')
+    return d2
+
+
 def left_np_scalar_out_of_domain(prog, dtype):
     """np.float64(g) <op> reader: NumPy itself turns the scalar into a Python float before the reader's reflected method
     sees it, so on single-precision samples the lazy result is float32 where eager NumPy gives float64. That is NumPy's
@@ -501,6 +517,8 @@ def _program(case, ctx):
             continue
         d = same(rr.value, exp, rtol=max(ulp_tol(exp), coarse_tol))
         if d:
+            d = _rowwise(A, prog, rows, rr.value, max(ulp_tol(exp), coarse_tol), ctx) and d
+        if d:
             ctx.violation('value_mismatch', sub, 'expr(reader)[%r] != expr(array)[%r]: %s' % (rows, rows, d), feats)
     if nontriv:
         ctx.sample({'backend': case['backend'], 'dtype': case['dtype'], 'program': prog}, every=211)
@@ -556,6 +574,8 @@ def _tree(case, ctx):
                               dict(feats, exc=rr.exc_name), tb=rr.tb)
                 return
             d = same(rr.value, eager[k][rows], rtol=tols[k])
+            if d:
+                d = _rowwise(A, progs[k], rows, rr.value, tols[k], ctx) and d
             if d:
                 ctx.violation('interference', case,
                               'node %d (program %r) changed after deriving node %d (%r): %s' % (
